@@ -31,6 +31,8 @@ CHECKS = {
             "1-50 concurrent INVITE and SUBSCRIBE dialogs over 2-6 backends behind one or two listeners; backends answer from their configured address, user agents continue a dialog when they observe the answer; every in-dialog request sent after the establishing answer was observed must reach the answering backend and nothing else (requests concurrent with the establishing event are counted don't-cares)."),
     "C08": ("exploration", "3 C08", "seeded simulation with corruption / truncation / hostile-field faults on both transports; wedge detection as a state (goroutine census at exact quiescence), sentinel transaction per listener after every hostile delivery, allocation bound",
             "Structural mutations of valid messages (bit flips, insert/delete, truncation, chunk duplication, splicing), raw bytes and hostile field values (Content-Length, Via host, missing or unparsable headers, thousands of headers/parameters) are delivered over UDP and TCP to a proxy carrying valid background traffic; after each one and exact quiescence: no goroutine panicked, all listener goroutines alive and idle, nothing stuck on a lock or channel send, a sentinel request per listener and transport relayed and answered, definitely-malformed TCP streams closed, allocated bytes <= 8 MiB + 64 x bytes delivered. Inputs are sampled by seeded structural mutation, not coverage-guided."),
+    "C09": ("exploration", "3 C09", "seeded schedules (PCT, starvation, run-to-block, random) of the real proxy's goroutines with the Go race detector working inside the serialised simulation; simultaneous bursts timed on the resolver's poll instants, DNS churn, TCP backends dropping connections; census, conservation and panic oracles",
+            "2-4 listen entries of one service (shared learned-route table, resolver and static routes), UDP and TCP clients and backends, a backend host name shared by two entries and changed by the DNS script while simultaneous bursts arrive at the poll instants; -race build: every report whose stacks include the program under test is a violation (detection is by happens-before, so it does not depend on the accesses being adjacent); at quiescence no goroutine is stuck on a lock or channel send or has died, every request reached exactly one backend of its own entry and every answer returned to its sender. 45% of the worlds are the C10, C12, C04, C05 and C19 worlds re-run under the detector (buffer pool, transport table, rotation, resolver)."),
     "C10": ("exploration", "3 C10", "seeded simulation of back-to-back datagram bursts (simultaneous arrivals) with starvation / PCT / random scheduling of the receive, parse and loop goroutines; truncation and length-lie faults; marker purity plus solo-replay differential",
             "5-200 datagrams of 20 B - 60 KiB, each intact, cut at a drawn offset or lying about its length, arrive in simultaneous bursts so that receive buffers are recycled in scheduler-chosen orders; every emission must carry the marker of exactly one datagram, incomplete or over-declaring datagrams must produce no emission at exact quiescence, intact ones exactly one equal emission, and a sampled datagram must be relayed identically when replayed alone in a fresh world."),
     "C12": ("exploration", "3 C12", "seeded simulation: 2-8 TCP client connections from one simulated address, answers of reactive backends reordered across connections, segmentation and short reads",
